@@ -99,3 +99,22 @@ Section Cycles.
     - exists ts. auto.
   Qed.
 End Cycles.
+
+(* ---- a whole configuration: every value has its own budget ----------------------------------------------------- *)
+Lemma many_values def retrieve txt d (kts : list (str * list tok)) :
+  kts <> [] ->
+  Forall (fun kt => wf def retrieve (nval txt) (snd kt) /\ good def retrieve txt d (snd kt) /\
+                    nanchored txt d (snd kt) /\ cost txt d (snd kt) <= max_expansions) kts ->
+  resolve def retrieve [CMap (map (fun kt => (fst kt, CStr (flatten (snd kt)))) kts)]
+  = Ok (CMap (map (fun kt => (fst kt, CStr (mean txt d (snd kt)))) kts)).
+Proof.
+  intros Hne H. unfold resolve. cbn [merge_sources as_conf]. rewrite merge_map_nil_l.
+  destruct kts as [|kt0 r0] eqn:E; [contradiction|]. rewrite <- E in *. clear Hne.
+  assert (Hm : map (fun kt : str * list tok => (fst kt, CStr (flatten (snd kt)))) kts <> []) by (rewrite E; discriminate).
+  destruct (map (fun kt : str * list tok => (fst kt, CStr (flatten (snd kt)))) kts) as [|e0 m0] eqn:Em; [contradiction|].
+  rewrite <- Em. apply resolve_node_map_ok; [rewrite Em; discriminate|].
+  clear Em Hm E. induction H as [|[k ts] l [Hw [Hg [Ha Hc]]] Hl IH]; [constructor|].
+  cbn [map fst snd] in *. constructor; [split; [reflexivity|]|exact IH].
+  cbn [fst snd]. change (resolve_node def retrieve (CStr (flatten ts))) with (resolve_string def retrieve (flatten ts)).
+  now apply nested_main.
+Qed.
